@@ -4,7 +4,14 @@ import random
 from fractions import Fraction
 
 
+_ODD = [None, "", 0, (), 1.5, frozenset(), b"", ("t",), -1, "x", 7, (0, 0), 2.5, "None", frozenset([1]), 99]
+
+
 def _label(kind, i):
+    if kind == "odd":        # "any hashable node type": None, falsy values, bytes, frozensets - not mutually orderable
+        return _ODD[i] if i < len(_ODD) else ("odd", i)
+    if kind == "fset":       # frozensets: `<` is the subset test, not a total order
+        return frozenset([i]) if i % 2 else frozenset([i, i + 1, 100])
     return "v%02d" % i if kind == "str" else ((i, "g") if kind == "tuple" else (1000 + i if kind == "big" else i))
 
 
@@ -31,7 +38,10 @@ def run_gp(case):
 
     # asymmetric neighbour lists are part of C15's domain: the graph is undirected, an edge exists when either end lists the other
     guard("articulation", lambda: {"e": "ret", "fn": "articulation", "nodes": sorted(ids[x] for x in articulation_points(iter(nodes), nb).solution)})
-    guard("bridges", lambda: {"e": "ret", "fn": "bridges", "edges": [[ids[a], ids[b]] for a, b in bridges(iter(nodes), nb).solution]})
+    if kind != "odd":        # bridges documents its edges as (u, v) with u < v: labels have to be comparable
+        # frozenset labels are only partially ordered, so "u < v" fixes no orientation there: the pair is recorded by position
+        fix = (lambda p: sorted(p)) if kind == "fset" else (lambda p: p)
+        guard("bridges", lambda: {"e": "ret", "fn": "bridges", "edges": [fix([ids[a], ids[b]]) for a, b in bridges(iter(nodes), nb).solution]})
 
     def kd():
         r = kcore_decomposition(iter(nodes), nb)
@@ -81,7 +91,7 @@ def gen(rng, nmax=9):
     rng.shuffle(edges)
     order = list(range(n))
     rng.shuffle(order)
-    return {"n": n, "edges": edges, "order": order, "symmetric": sym, "labels": rng.choice(["int", "str", "tuple", "big"]),
+    return {"n": n, "edges": edges, "order": order, "symmetric": sym, "labels": rng.choice(["int", "str", "tuple", "big", "odd", "fset"]),
             "ks": sorted({0, 1, 2, rng.randint(0, 4)}),
             "pr": [[17, 20, 1], [rng.choice([1, 5, 9, 19]), 20, rng.choice([1, 100])]],
             "res": [[1, 1], [rng.choice([1, 2, 3, 5]), rng.choice([1, 2, 4])]]}
